@@ -147,3 +147,13 @@ CHECKS["C13"] = dict(
            P("immutable", "^TestC13Immutable$", shards=(1, 4)), P("confinement", "^TestC13Confinement$", shards=(1, 4))],
     floor=100,
 )
+
+CHECKS["C14"] = dict(
+    level="exploration",
+    technique="model-based runtime monitoring: every add-checkpoint response of the real witness is compared with a sequential reference model; every lock-store commit is checked online against ground-truth chains (one append-only history); concurrent races with injected lock/storage faults and restarts; race detector",
+    text="A real witness (logs installed through PullLogList) is driven over logs with two forks whose leaves the harness holds. Sequential histories vary old/new sizes around the recorded size, proofs (correct, empty, flipped, truncated, extended, proof of the fork), signatures (valid, corrupted, unknown key, other origin) and malformed bodies, with restarts: the status must be one of the statuses of the faults present (200 only when there is none), 409 bodies carry the recorded size, 200 bodies are exactly the two witness cosignatures verifying over the re-encoded (origin, size, root), and the lock store already holds that checkpoint. Concurrently, 8-24 goroutines race main-chain and fork updates from the same recorded size under injected lock Replace and upload failures (applied or not) and restarts: at most one 200 per recorded size and no 200 for a checkpoint that was never recorded. A monitor on every lock commit requires the log's signature, non-decreasing sizes and that all recorded checkpoints lie on one ground-truth chain.",
+    note="Proof generation uses x/mod tlog (generator side only); the oracle is the reference RFC 6962 tree over the known leaves. Multi-fault requests are judged by membership in the set of allowed statuses, not by a precedence order.",
+    design_ref="DESIGN.md section 3, C14",
+    parts=[P("sequential", "^TestC14Sequential$", shards=(4, 16)), P("concurrent", "^TestC14Concurrent$", shards=(4, 16)), P("concurrent-race", "^TestC14Concurrent$", race=True, shards=(2, 8))],
+    floor=500,
+)
